@@ -632,6 +632,54 @@ def numeric_run_factory(backend):
     return run
 
 
+def case_reuse_run(carve):
+    """case expressions built by extending an open case expression: each denotes its own first-true-branch function (native,
+    Python oracle) - the shorter expression is evaluated AFTER the longer one was built from it"""
+    import warnings
+
+    import polars as pl
+    import sqlalchemy as sqa
+
+    from .c13 import _enum_outcome
+
+    pdt = H.pdt
+    a = [3, -2, 0, None, 5, -7]
+    df = pl.DataFrame({"a": a, "h": list(range(6))})
+    eng = sqa.create_engine("sqlite://")
+    df.write_database("t", eng)
+    n, bad = 0, []
+    with warnings.catch_warnings():
+        warnings.simplefilter("ignore")
+        for be, t in (("polars", pdt.Table(df, name="t")), ("sqlite", pdt.Table("t", pdt.SqlAlchemy(eng)))):
+            pos = pdt.when(t.a > 0).then(1)
+            sign = pos.when(t.a < 0).then(-1)
+            full = sign.otherwise(0)
+            wc = pdt.when(t.a > 2)
+            big, huge = wc.then(10), wc.then(20).when(t.a > 0).then(5)
+            m1 = t.a.map({3: 30})
+            m2 = t.a.map({3: 30, (5, -7): 50}, default=-1)
+            want = {
+                "pos": [1 if (v is not None and v > 0) else None for v in a],
+                "sign": [None if v is None else (1 if v > 0 else (-1 if v < 0 else None)) for v in a],
+                "full": [0 if v is None else (1 if v > 0 else (-1 if v < 0 else 0)) for v in a],
+                "big": [10 if (v is not None and v > 2) else None for v in a],
+                "huge": [None if v is None else (20 if v > 2 else (5 if v > 0 else None)) for v in a],
+                "m1": [30 if v == 3 else v for v in a],
+                "m2": [30 if v == 3 else (50 if v in (5, -7) else -1) for v in a],
+            }
+            exprs = {"full": full, "sign": sign, "pos": pos, "huge": huge, "big": big, "m2": m2, "m1": m1}
+            for name, e in exprs.items():
+                n += 1
+                try:
+                    got = (t >> pdt.mutate(r=e) >> pdt.arrange(t.h) >> pdt.export(pdt.Polars()))["r"].to_list()
+                except Exception as ex:  # noqa: BLE001
+                    bad.append(f"[{be}] {name}: raises {type(ex).__name__}: {str(ex)[:120]}")
+                    continue
+                if got != want[name]:
+                    bad.append(f"[{be}] case expression `{name}` (evaluated after longer expressions were built from it): {got}, first-true-branch semantics give {want[name]}")
+    return _enum_outcome("case expressions extended from a shared prefix each keep their own first-true-branch meaning (Python oracle, both backends)", n, bad)
+
+
 def obligations(tier):
     obs = []
     backend_cls = {"polars": H.polars_backend.PolarsImpl, "sqlite": H.sqlite_backend.SqliteImpl}
@@ -688,6 +736,8 @@ def obligations(tier):
     for backend in BACKENDS:
         obs.append(Obligation(f"C03/LIB-num/{backend}", "LIB", f"rounding / power / transcendental functions on {backend} against Python's math", numeric_run_factory(backend), functions=[disp[backend]],
                               bounded="21 numeric expressions on 8 rows (negative values, nulls, no rounding ties); native execution", tags=("cross_backend",)))
+    obs.append(Obligation("C03/E3/case_reuse", "E3", "case expressions built from a shared open prefix (native, Python oracle)", case_reuse_run, functions=[H.fn_info(H.col_expr_mod.WhenClause.then), H.fn_info(H.col_expr_mod.CaseExpr.when), H.fn_info(H.col_expr_mod.CaseExpr.otherwise), H.fn_info(H.col_expr_mod.ColExpr.map)],
+                          bounded="7 case / map expressions sharing prefixes x 2 backends on one 6-row column"))
     obs.append(Obligation("C03/B/method_binding", "B", "methods, accessors, reflected operators and free functions are bound to their operators with the arguments in order", binding_run,
                           functions=[H.fn_info(H.col_expr_mod.ColFn.__init__)], bounded="up to 4 column-only and 8 literal-carrying argument shapes per operator (every operator of the registry); the bound method is a straight-line constructor call"))
     from pydiverse.common import Float64, Int64, String
